@@ -179,9 +179,11 @@ impl StateSpace for LatticeSpace {
 
     fn interpolate(&self, from: &LState, to: &LState, t: f64, out: &mut LState) {
         let d = self.topo.d(from.0, to.0);
-        // ceil with a guard band: t = i/n and t = max/min_dist land exactly where Geo says,
-        // and `from` itself is never produced for t > 0 (as on the real spaces).
-        let k = ((d as f64) * t - 1e-9).ceil() as i64;
+        // t = 1 (and only t = 1) gives the far endpoint; for t < 1 the point ceil(d t) units along,
+        // capped at d - 1: so `from` is not produced for t > 0 when d >= 2 (as on the real spaces, where
+        // the checker is never asked about `from`), t = i/n and t = max/min_dist land exactly where Geo
+        // says, and a check that skips its last step really skips the endpoint
+        let k = if t >= 1.0 - 1e-12 { d } else { (((d as f64) * t - 1e-9).ceil() as i64).min(d - 1) };
         out.0 = self.topo.geo(from.0, to.0, k.clamp(0, d));
     }
 
